@@ -73,7 +73,7 @@ class VChan:
         self.closed = True
 
 
-def scenario(n_clients, with_bg, answer_order, chooser, sync_timeout=2.0, timeouts=None, eof_after=None, peer_requests=0, exc_replies=(), answer_delay=None, events_out=None, raising_callback=()):
+def scenario(n_clients, with_bg, answer_order, chooser, sync_timeout=2.0, timeouts=None, eof_after=None, peer_requests=0, exc_replies=(), answer_delay=None, events_out=None, raising_callback=(), pollers=()):
     """returns dict(result per client, events, lateness per client, deadlock, clock advances)"""
     codes = [P.Connection.serve.__code__, P.Connection._dispatch.__code__, P.Connection._seq_request_callback.__code__,
              P.Connection._async_request.__code__, P.Connection._get_seq_id.__code__, P.Connection._send.__code__,
@@ -186,6 +186,12 @@ def scenario(n_clients, with_bg, answer_order, chooser, sync_timeout=2.0, timeou
                 if tmo is not None:
                     deadlines[i] = S.now + tmo
                 try:
+                    if i in pollers:
+                        # a thread that POLLS its result a few times first (AsyncResult.ready -> poll_all -> serve(0, wait_for_lock=False):
+                        # the non-blocking way through serve, which gives up at once when another thread holds the receive lock)
+                        for _ in range(4):
+                            if res.ready:
+                                break
                     out["results"][i] = res.value
                 except Exception as e:
                     out["results"][i] = "EXC:" + ("EOFError" if isinstance(e, EOFError) else type(e).__name__)
@@ -629,6 +635,18 @@ def run_plans(ctx, which):
             ctx.case(("callback", nc, bg, tuple(order), seed, tuple(raisers)), nontrivial=True, sample={"case": case, "results": out["results"], "errors": out["errors"]})
             ctx.count("raising-callback-runs")
             oracle13_callback(ctx, case, out, nc, raisers)
+    if which == "C13":
+        for k in range(40 if ctx.quick else 1000):
+            nc = r.choice([2, 2, 3])
+            bg = r.random() < 0.5
+            order = list(range(nc)); r.shuffle(order)
+            seed, stick = r.randrange(10**9), r.choice([0.0, 0.2, 0.5])
+            pl = [i for i in range(nc) if r.random() < 0.6] or [0]
+            out = scenario(nc, bg, order, make_chooser(seed, stick), pollers=pl)
+            case = {"clients": nc, "bg": bg, "order": order, "seed": seed, "stick": stick, "pollers": pl}
+            ctx.case(("pollers", nc, bg, tuple(order), seed, tuple(pl)), nontrivial=True, sample={"case": case, "results": out["results"]})
+            ctx.count("polling-threads-runs(serve without waiting for the lock)")
+            oracle13(ctx, case, out, nc)
     xbatch = []
     if which == "C13":
         for k in range(80 if ctx.quick else 2000):
@@ -689,6 +707,10 @@ def replay(ctx, rep):
         out = scenario(cs["clients"], cs["bg"], cs["order"], chooser, sync_timeout=None, timeouts=[None] * cs["clients"], eof_after=cs["eof_after"])
         oracle13_eof(ctx, cs, out, cs["clients"], cs["eof_after"])
         ctx.case(("replay", cs["seed"]), True)
+        return
+    if "pollers" in cs:
+        out = scenario(cs["clients"], cs["bg"], cs["order"], chooser, pollers=cs["pollers"])
+        oracle13(ctx, cs, out, cs["clients"])
         return
     if "raising_callback" in cs:
         out = scenario(cs["clients"], cs["bg"], cs["order"], chooser, raising_callback=cs["raising_callback"])
